@@ -27,6 +27,7 @@ type c20Scenario struct {
 	Writer   string    `json:"audit_writer"`
 	KeepMode string    `json:"keep_files"`
 	Multi    []int     `json:"multi_fault,omitempty"`
+	ReqLimit int       `json:"request_body_limit"`
 }
 
 type c20Exec struct {
@@ -40,6 +41,9 @@ type c20Exec struct {
 	TxOpBase  int
 	DebugMsgs int
 	Dump      map[string]string
+	// PairShared: two transactions alive at the same time after the scenario
+	// (and a second Close of its transaction) are one object
+	PairShared bool
 }
 
 var c20ErrVars = []string{"REQBODY_ERROR", "REQBODY_PROCESSOR_ERROR", "MULTIPART_STRICT_ERROR", "INBOUND_DATA_ERROR", "OUTBOUND_DATA_ERROR", "URLENCODED_ERROR"}
@@ -84,6 +88,16 @@ func c20Gen(t *verifrt.Tape) (*c20Scenario, *Config) {
 		sc.Script.Method, sc.Script.BodyKind, sc.Script.ContentType = "POST", "urlencoded", "application/x-www-form-urlencoded"
 		sc.Script.Body = []byte("a=tok1&b=0123456789012345678901234567890123456789")
 	}
+	sc.ReqLimit = cfg.ReqLimit
+	if t.Draw(3) == 0 {
+		// body over the limit, written in slices one of which ends exactly on the limit
+		for len(sc.Script.Body) <= cfg.ReqLimit {
+			sc.Script.Body = append(sc.Script.Body, []byte("&pad=0123456789abcdefghijklmnopqrstuvwxyz")...)
+		}
+		first := 1 + t.Draw(cfg.ReqLimit-1)
+		sc.Script.BodyReader = 0
+		sc.Script.BodyChunks = []int{first, cfg.ReqLimit - first, 1 + t.Draw(8), 1 + t.Draw(40)}
+	}
 	sc.Probe = genScript(t, &reqOpts{Body: true, MaxArgs: 3}, "probe")
 	sc.Config = cfg.Text() + fmt.Sprintf("SecRule %s \"@unconditionalMatch\" \"id:9991,phase:5,pass,nolog\"\n", strings.Join(append(append([]string{}, c20ErrVars...), c20MsgVars...), "|"))
 	return sc, cfg
@@ -117,6 +131,9 @@ func c20Execute(w *verifrt.World, sc *c20Scenario, decide func(d *simos.FS, base
 	}
 	s := *sc.Script
 	s.StopAfter = stopAfter
+	// the usual connector pattern: an explicit Close whose error is logged plus a
+	// deferred one
+	s.DoubleClose = true
 	ex.Out = runTx(h, &s)
 	disk.Decide = nil
 	ex.DebugMsgs = ex.Out.DebugErrors
@@ -137,6 +154,15 @@ func c20Execute(w *verifrt.World, sc *c20Scenario, decide func(d *simos.FS, base
 	}
 	if withProbe {
 		ex.Probe = runTx(h, sc.Probe)
+		safely(func() {
+			a := h.WAF.NewTransactionWithID("pairA")
+			b := h.WAF.NewTransactionWithID("pairB")
+			ex.PairShared = ifacePtr(a) == ifacePtr(b)
+			a.Close()
+			if !ex.PairShared {
+				b.Close()
+			}
+		})
 	}
 	return ex
 }
@@ -236,11 +262,28 @@ func c20Run(w *verifrt.World, tier Tier) *RunResult {
 		if ex.Probe == nil || probeRef == nil {
 			return
 		}
+		if ex.PairShared {
+			res.fail("C20", "recycled-object-shared", fp, "%s (Close called twice, as with an explicit plus a deferred Close): afterwards two transactions alive at the same time are the same object", what)
+		}
 		if clause, detail := c05Diff(probeRef, ex.Probe); clause != "" {
 			res.fail("C20", "recycled-object-differs", fp+"/"+clause, "%s: a probe transaction on the recycled object differs from the same probe on a fresh WAF: %s", what, detail)
 		}
 	}
 	_ = keep
+	// ---- a body over the limit must surface (interruption, error variable,
+	// returned error or log entry) however the slices fall
+	if len(sc.Script.Body) > sc.ReqLimit && sc.Script.BodyKind != "" && (base.Out.Interrupted == nil || base.Out.Interrupted.RuleID == 0) {
+		nw := 0
+		for _, st := range base.Out.Steps {
+			if strings.HasPrefix(st, "WriteRequestBody") || strings.HasPrefix(st, "ReadRequestBodyFrom") {
+				nw++
+			}
+		}
+		res.count("over_limit_bodies", 1)
+		if nw > 0 && base.Out.Interrupted == nil && base.Dump["INBOUND_DATA_ERROR"] != "1" && len(base.Out.ErrSteps) == 0 && base.Out.DebugErrors == 0 {
+			res.fail("C20", "over-limit-swallowed", fmt.Sprintf("reader%d", sc.Script.BodyReader), "a request body of %d bytes with SecRequestBodyLimit %d (slices %v) was processed without interruption, INBOUND_DATA_ERROR, returned error or log entry: calls %v\nconfiguration:\n%s", len(sc.Script.Body), sc.ReqLimit, sc.Script.BodyChunks, base.Out.Steps, sc.Config)
+		}
+	}
 	checkLeft(base, "fault-free run", "fault-free")
 	checkProbe(base, "fault-free run", "fault-free")
 	txOps := base.Ops[base.TxOpBase:]
@@ -377,14 +420,14 @@ func init() {
 		MaxSeconds: [2]int{100, 1500},
 		Rule: "one run = one generated transaction (body larger than the in-memory limit so it spills, urlencoded / multipart with 0-3 files / JSON / raw, keep-files Off|On|RelevantOnly, serial or concurrent audit writer on the simulated disk, optional interruption) enumerated exhaustively: " +
 			"a fault-free execution records the disk operation log and the API call list; then EVERY disk operation of the transaction fails in turn with EVERY applicable kind (create-fail, open-fail, write-error, short-write, read-error, short-read, close-error, remove-error, mkdir-error) and the transaction is abandoned after EVERY call; thorough adds random multi-fault sequences. " +
-			"Oracle: no panic; the failure is visible (a call returns an error, an error variable changes, Close fails, or a warn/error log entry appears); a legal short read changes nothing; after Close no file created for the transaction remains (unless retention is configured or the fault is the failing remove); a probe on the recycled object equals the probe on a fresh WAF. " +
+			"Oracle: no panic; the failure is visible (a call returns an error, an error variable changes, Close fails, or a warn/error log entry appears); a legal short read changes nothing; after Close no file created for the transaction remains (unless retention is configured or the fault is the failing remove); a probe on the recycled object equals the probe on a fresh WAF, and two transactions alive at the same time afterwards are two objects (every scenario closes its transaction twice, as an explicit plus a deferred Close do); in the fault-free execution a body over SecRequestBodyLimit surfaces (interruption, INBOUND_DATA_ERROR, returned error or log entry) however the slices fall - a third of the scenarios write such a body with one slice ending exactly on the limit. " +
 			"non-trivial = the transaction performed at least one disk operation; distinct = scenario hash. Within one scenario the enumeration of single faults and termination points is exhaustive",
 		Assumptions: []string{"operations performed while the WAF is constructed (writability probe, opening the audit log) are configuration-time and not fault points",
 			"a failure reported at warn level counts as visible", "outcomes under two or more simultaneous faults are only checked for panic-freedom and a working recycled object"},
 		Real:      []string{"BodyBuffer, multipart/urlencoded/JSON processors, Transaction.Close, serial and concurrent audit writers with real log.Logger, formatters"},
 		Stub:      []string{"file system (simos) with per-operation fault points", "clock", "random source", "sync.Pool policy"},
 		Unchecked: []string{"wording of error messages", "multi-fault outcomes beyond panic-freedom and recycled-object equality", "torn / lost writes and dirty restart: coraza recovers nothing from disk"},
-		MustHit:   []string{"direct_api_scenarios", "middleware_scenarios", "middleware_fault_points", "fault_create-fail", "fault_write-error", "fault_short-write", "fault_read-error", "fault_close-error", "fault_remove-error", "fault_mkdir-error", "early_termination_points", "multi_fault_runs"},
+		MustHit:   []string{"direct_api_scenarios", "middleware_scenarios", "middleware_fault_points", "fault_create-fail", "fault_write-error", "fault_short-write", "fault_read-error", "fault_close-error", "fault_remove-error", "fault_mkdir-error", "early_termination_points", "multi_fault_runs", "over_limit_bodies"},
 	})
 }
 
